@@ -28,6 +28,10 @@ CHECKS = {
          "Explicit-state exploration of (program, initial state, step): every program of the kernel family (single-transfer: each of ~1650 instructions after every state-setting prefix of length <= 1 quick / <= 2 thorough; all sequences over a 25-symbol alphabet up to length 3/4; all control-flow sequences over 12/14 symbols up to length 4/6; 10 loop/diamond/irreducible/recursion/multi-return skeletons; each as main program and as called function) is analysed by the real Manager::gen_full_cfg and executed by the harness's interpreter from 8/32 initial states to exit or a 256-step horizon; at every arrival/departure every Constant / Address / entry-value+k claim on registers and stack slots is compared with the machine. The model (interpreter) trace is bound 1:1 to the implementation's CFG nodes.",
          "Trusted: the reference interpreter (two cross-checked ALUs) and the activation monitor that stops checking where an execution leaves the property's supported subset. Programs longer than the bounds, immediates outside the alphabets and the un-named claim kinds (memory-at-register, CSR) are not covered.",
          "DESIGN.md 3 C01"),
+ "C07": ("bounded-exhaustive enumeration of files over a line alphabet; coverage oracle by independent locator, containment oracle differential (file vs file with the bad line deleted)",
+         "All files of 1..4 (quick) / 1..5 (thorough) lines over 14 line kinds (7 well-formed, 7 malformed) x {LF, CRLF} x {final newline, none} x {single file, tail in an included file} go through the real lexer+parser; every line with content must be the line (by raw offset, via the harness's own locator) of a node or of a parse error, well-formed lines draw no error, and for every malformed line the nodes/errors of all other lines equal those of the file with that line deleted.",
+         "Trusted: locator; the 14 line kinds are representatives (one statement per line).",
+         "DESIGN.md 3 C07"),
  "C08": ("bounded-exhaustive enumeration of the decode table and folding grid against an independent RV32IM reference (explicit-state, model = manual's decode table + ALU)",
          "Complete enumeration of a finite space: every entry of a decode table transcribed from the RISC-V manual (mnemonic x operand form x 7 registers per position x boundary immediates; ~13k texts) is parsed by the real parser and compared with the manual's meaning - structurally, or, for pseudo-instructions, by executing both on every pair of a 66-value boundary grid; every foldable mnemonic x every grid pair goes through the real MathOp::operate in a release and an overflow-checked build. Model traces (expected instruction / ALU result) are compared 1:1 with the implementation.",
          "Trusted: the hand-transcribed decode table and the two cross-checked reference ALUs; register/immediate choices are representatives, not all 32^3 combinations.",
